@@ -14,6 +14,9 @@ INV_OF = {"ReqIDsInOrder": "C06", "NothingAfterUnbind": "C10", "Alive": "C07", "
           "SocketClosedAfterHandlers": "C08", "ConnIDsUnique": "C09", "QuiescentAfterStop": "C12", "ReadyImpliesListening": "C17"}
 
 
+SMALL = dict(CONSTS, Conns='{"c1", "c2", "c3"}', MaxReq="6")
+
+
 def group_of(cfgv):
     mode = {"tls": '"server"', "mtls": '"mtls"'}.get(cfgv.get("tls", ""), '"none"')
     return (mode, "TRUE" if cfgv.get("expect_run_error") == "1" else "FALSE", "TRUE" if cfgv.get("read_timeout_ms") else "FALSE")
@@ -51,7 +54,11 @@ def traces_of(rows, scenarios):
             q.append(ev)
         if not procs:
             continue
-        out.setdefault(group_of(cfgv), []).append({"id": sc["id"], "procs": [procs[g] for g in sorted(procs)]})
+        # small scenarios (the bulk) are replayed with small model constants: TLC's cost per state grows with Conns x MaxReq
+        nconn = max([int(c[1:]) for c in {r["c"] for r in rs} if re.fullmatch(r"c\d+", c)] or [1])
+        nreq = max(list(sends.values()) or [1])
+        size = "small" if nconn <= 3 and nreq <= 6 else "large"
+        out.setdefault(group_of(cfgv) + (size,), []).append({"id": sc["id"], "procs": [procs[g] for g in sorted(procs)]})
     return out, skipped
 
 
@@ -62,37 +69,58 @@ def parse_line(text, tag):
     return None
 
 
+ROUNDS = (0, 2, 8, 1000000)    # MaxDev per round: traces not accepted in one round are searched again with the next bound
+
+
 def check(run, rows, scenarios, timeout=1800):
-    """returns (accepted ids, rejected [{'id', 'frontier'}], number of traces, skipped)"""
+    """returns (accepted ids, rejected [{'id', 'frontier'}], number of traces, skipped); traces whose unbounded search did not
+    finish within the budget are neither (counted in run.refine_inconclusive)"""
     groups, skipped = traces_of(rows, scenarios)
     accepted, rejected, n = set(), [], 0
-    for (mode, lf, rt), trs in sorted(groups.items()):
-        f = run.path("refine_%d.ndjson" % (run.nmeta + 1))
-        vlib.write_ndjson(f, trs)
-        consts = dict(CONSTS, TLSMode=mode, ListenFails=lf, ReadTimeout=rt)
-        body = "INIT RInit\nNEXT RNext\nCONSTRAINT NotYetAccepted\nINVARIANTS %s\nPOSTCONDITION Report\nCHECK_DEADLOCK FALSE\n" % " ".join(INV_OF)
-        res = run.tlc("GldapRefine", scen.cfg(consts, body), env={"OBS": f}, workers=1, timeout=timeout, dfs=True, heap="12g", cdot=True, cont=True)
-        if res.fatal:
-            raise vlib.Infra("GldapRefine: %s" % res.fatal[:2000])
-        acc = parse_line(res.out, "ACCEPTED")
-        if acc is None:
-            raise vlib.Infra("GldapRefine: no ACCEPTED line\n" + res.out[-3000:])
-        acc = set(acc)
-        ids = {t["id"] for t in trs}
-        n += len(ids)
-        accepted |= acc & ids
-        fr = {f["id"]: f for f in (parse_line(res.out, "FRONTIER") or [])}
-        for i in sorted(ids - acc):
-            rejected.append({"id": i, "frontier": fr.get(i), "invariant": []})
-        # Gldap's own invariants, evaluated in every state of the replayed executions
-        seen = set()
-        for v in res.violations:
-            if not v["states"] or v["name"] not in INV_OF:
-                continue
-            t = int(v["states"][-1]["vars"].get("tid", "0"))
-            if 1 <= t <= len(trs) and (trs[t - 1]["id"], v["name"]) not in seen:
-                seen.add((trs[t - 1]["id"], v["name"]))
-                rejected.append({"id": trs[t - 1]["id"], "frontier": None, "invariant": [v["name"]]})
+    run.refine_inconclusive = getattr(run, "refine_inconclusive", 0)
+    budget = 240 if run.quick() else 1500
+    for (mode, lf, rt, size), alltrs in sorted(groups.items()):
+        n += len(alltrs)
+        trs, fr, seen = alltrs, {}, set()
+        for maxdev in ROUNDS:
+            if not trs:
+                break
+            last = maxdev == ROUNDS[-1]
+            if last and len(trs) > 40:
+                # a tree on which many executions are rejected: the complete search is run for the 40 shortest only
+                trs = sorted(trs, key=lambda t: sum(len(q) for q in t["procs"]))
+                run.refine_inconclusive += len(trs) - 40
+                trs = trs[:40]
+            f = run.path("refine_%d.ndjson" % (run.nmeta + 1))
+            vlib.write_ndjson(f, trs)
+            consts = dict(CONSTS if size == "large" else SMALL, TLSMode=mode, ListenFails=lf, ReadTimeout=rt, MaxDev=str(maxdev),
+                          TrackFrontier="TRUE" if maxdev == ROUNDS[-1] else "FALSE")
+            body = "INIT RInit\nNEXT RNext\nCONSTRAINT NotYetAccepted\nINVARIANTS %s\nPOSTCONDITION Report\nCHECK_DEADLOCK FALSE\n" % " ".join(INV_OF)
+            res = run.tlc("GldapRefine", scen.cfg(consts, body), env={"OBS": f}, workers=1, timeout=budget if last else timeout, dfs=True, heap="12g",
+                          cdot=True, cont=True, soft_timeout=last)
+            if res.timed_out:
+                run.refine_inconclusive += len(trs)      # no verdict from an unfinished search
+                trs = []
+                break
+            if res.fatal:
+                raise vlib.Infra("GldapRefine: %s" % res.fatal[:2000])
+            acc = parse_line(res.out, "ACCEPTED")
+            if acc is None:
+                raise vlib.Infra("GldapRefine: no ACCEPTED line\n" + res.out[-3000:])
+            acc = set(acc)
+            accepted |= acc & {t["id"] for t in trs}
+            fr = {x["id"]: x for x in (parse_line(res.out, "FRONTIER") or [])}
+            # Gldap's own invariants, evaluated in every state the search visits (all of them are states of Gldap.tla)
+            for v in res.violations:
+                if not v["states"] or v["name"] not in INV_OF:
+                    continue
+                t = int(v["states"][-1]["vars"].get("tid", "0"))
+                if 1 <= t <= len(trs) and (trs[t - 1]["id"], v["name"]) not in seen:
+                    seen.add((trs[t - 1]["id"], v["name"]))
+                    rejected.append({"id": trs[t - 1]["id"], "frontier": None, "invariant": [v["name"]]})
+            trs = [t for t in trs if t["id"] not in acc]
+        for t in trs:      # not accepted with the search unbounded: rejected
+            rejected.append({"id": t["id"], "frontier": fr.get(t["id"]), "invariant": []})
     return accepted, rejected, n, skipped
 
 
@@ -213,7 +241,7 @@ def selftest(run, rows, scenarios, accepted):
     """returns (number of corrupted traces, descriptions of those that were accepted - must be empty); the trace that is
     corrupted is one the refinement check has accepted"""
     groups, _ = traces_of(rows, scenarios)
-    trs = [t for t in groups.get(('"none"', "FALSE", "FALSE"), []) if t["id"] in accepted]
+    trs = [t for t in groups.get(('"none"', "FALSE", "FALSE", "small"), []) if t["id"] in accepted]
     pick = None
     for t in trs:
         evs = [e for q in t["procs"] for e in q]
@@ -225,7 +253,7 @@ def selftest(run, rows, scenarios, accepted):
     vs = [("untouched", pick)] + tamper_variants(pick)
     f = run.path("refine_selftest.ndjson")
     vlib.write_ndjson(f, [dict(t, id=900000 + i) for i, (_, t) in enumerate(vs)])
-    consts = dict(CONSTS, TLSMode='"none"', ListenFails="FALSE")
+    consts = dict(SMALL, TLSMode='"none"', ListenFails="FALSE", ReadTimeout="FALSE", MaxDev="1000000", TrackFrontier="FALSE")
     body = "INIT RInit\nNEXT RNext\nCONSTRAINT NotYetAccepted\nPOSTCONDITION Report\nCHECK_DEADLOCK FALSE\n"
     res = run.tlc("GldapRefine", scen.cfg(consts, body), env={"OBS": f}, workers=1, timeout=600, dfs=True, heap="8g", cdot=True)
     acc = set(parse_line(res.out, "ACCEPTED") or [])
